@@ -283,6 +283,9 @@ func c13cScenarios(thorough bool) []*core.Scenario {
 		{"w0;f0;w0||w0;w1;w2/2frames", 2, [][]string{{"w0", "f0", "w0"}, {"w0", "w1", "w2"}}, b, false},
 		{"new;w0||new;w1/2frames", 2, [][]string{{"new", "w0"}, {"new", "w1"}}, b, false},
 		{"tmp;new;r0||w0;w1;w0/2frames", 2, [][]string{{"tmp", "new", "r0"}, {"w0", "w1", "w0"}}, b, false},
+		// a deallocated id waits in the reusable list while two users ask for a new page
+		{"tmp;new||new;w0/3frames", 3, [][]string{{"tmp", "new"}, {"new", "w0"}}, b, false},
+		{"tmp;tmp;new||new;new/3frames", 3, [][]string{{"tmp", "tmp", "new"}, {"new", "new"}}, b, false},
 		{"h0;u0||w1;w2;w0/2frames", 2, [][]string{{"h0", "u0"}, {"w1", "w2", "w0"}}, b, false},
 		{"h0;new;u0||w1;w2;w0/3frames", 3, [][]string{{"h0", "new", "u0"}, {"w1", "w2", "w0"}}, b, false},
 		{"w0;new||w0;w1||w1;w2/3frames", 3, [][]string{{"w0", "new"}, {"w0", "w1"}, {"w1", "w2"}}, b, false},
